@@ -1,541 +1,70 @@
-From Dnp3V Require Import Outstation.Session Outstation.SessionLemmas_c05.
+From Dnp3V Require Import Outstation.Session Outstation.SessionLemmas_c05 Outstation.SessionC05Proofs.
 Open Scope N_scope.
 
-(* ---------- the C05 invariants ------------------------------------------------------------------------------- *)
+(* ---------- 1. a repeated non-READ request is not executed again ------------------------------------------------------------- *)
 
-(* a fragment with these bytes has been transmitted; when only the configured master is listened to,
-   it went to that master *)
-Definition tx_known (cfg : ocfg) (h : list oobs) (b : list N) : Prop :=
-  exists dest, In (OTx dest b) h /\ (o_any_master cfg = false -> dest = o_master cfg).
+Lemma sol_wait_fragment_repeat cfg s se dl from bytes d ctl fn obj resp :
+  to_treq cfg from d = TqRequest ctl fn obj ->
+  classify s None bytes ctl fn obj = FtRepeatNonRead resp ->
+  sol_wait_fragment cfg s se dl from None bytes d = (SoNewRequest, [OInfo ISolNewRequest]).
+Proof. intros Et Ecl. unfold sol_wait_fragment. rewrite Et, Ecl. reflexivity. Qed.
 
-(* the remembered response, rendered over the solicited buffer as it is now, is a fragment sent before *)
-Definition sol_coh (cfg : ocfg) (h : list oobs) (s : ostate) : Prop :=
-  forall l r, s_last s = Some l -> lr_response l = Some r ->
-    tx_known cfg h (response_bytes r (s_sol_buf s)).
-
-(* fragment b went out to dest and opened the unsolicited confirm wait that is still the last one *)
-Definition opened_by (h : list oobs) (dest : N) (b : list N) (q : N) : Prop :=
-  exists h1 h2, h = h1 ++ OTx dest b :: OInfo (IEnterUnsolWait q) :: h2 /\
-                forallb not_enter_unsol h2 = true.
-
-Definition unsol_coh (cfg : ocfg) (h : list oobs) (s : ostate) : Prop :=
-  forall resp n rt dl, s_control s = CUnsolWait resp n rt dl ->
-    opened_by h (o_master cfg) (response_bytes resp (s_unsol_buf s)) (ctl_seq (r_ctl resp)) /\
-    r_fn resp = fn_unsol_response.
-
-(* in a solicited confirm wait the remembered response is the fragment whose confirmation is awaited *)
-Definition wait_coh (s : ostate) : Prop :=
-  forall se dl rs, s_control s = CSolWait se dl rs ->
-    exists l r, s_last s = Some l /\ lr_response l = Some r /\ ctl_seq (r_ctl r) = se_ecsn se mod 16.
-
-Lemma tx_known_app_l cfg h o b : tx_known cfg h b -> tx_known cfg (h ++ o) b.
-Proof. intros [d [H1 H2]]. exists d. split; [apply in_or_app; auto | exact H2]. Qed.
-
-Lemma tx_known_app_r cfg h o b : tx_known cfg o b -> tx_known cfg (h ++ o) b.
-Proof. intros [d [H1 H2]]. exists d. split; [apply in_or_app; auto | exact H2]. Qed.
-
-Lemma sol_coh_frame cfg h s s1 o :
-  s_last s1 = s_last s -> s_sol_buf s1 = s_sol_buf s -> sol_coh cfg h s -> sol_coh cfg (h ++ o) s1.
-Proof.
-  intros E1 E2 H l r Hl Hr. rewrite E2. apply tx_known_app_l. rewrite E1 in Hl. eauto.
-Qed.
-
-Lemma opened_by_app h o dest b q :
-  forallb not_enter_unsol o = true -> opened_by h dest b q -> opened_by (h ++ o) dest b q.
-Proof.
-  intros Ho [h1 [h2 [-> H2]]]. exists h1, (h2 ++ o). split.
-  - rewrite <- app_assoc. reflexivity.
-  - rewrite forallb_app, H2, Ho. reflexivity.
-Qed.
-
-Lemma unsol_coh_frame cfg h s s1 o :
-  s_control s1 = s_control s -> s_unsol_buf s1 = s_unsol_buf s -> forallb not_enter_unsol o = true ->
-  unsol_coh cfg h s -> unsol_coh cfg (h ++ o) s1.
-Proof.
-  intros E1 E2 Ho H resp n rt dl Hc. rewrite E1 in Hc. destruct (H _ _ _ _ Hc) as [H1 H2].
-  split; [|exact H2]. rewrite E2. apply opened_by_app; assumption.
-Qed.
-
-Lemma unsol_coh_vacuous cfg h s :
-  (forall resp n rt dl, s_control s <> CUnsolWait resp n rt dl) -> unsol_coh cfg h s.
-Proof. intros H resp n rt dl Hc. destruct (H _ _ _ _ Hc). Qed.
-
-Lemma wait_coh_frame s s1 :
-  s_control s1 = s_control s -> s_last s1 = s_last s -> wait_coh s -> wait_coh s1.
-Proof. intros E1 E2 H se dl rs Hc. rewrite E1 in Hc. rewrite E2. eauto. Qed.
-
-(* the source remembered with a deferred READ is a master the session listens to *)
-Definition def_ok (cfg : ocfg) (s : ostate) : Prop :=
-  forall d, s_deferred s = Some d -> o_any_master cfg = false -> df_from d = o_master cfg.
-
-(* ---------- handle_one_request_from_idle ----------------------------------------------------------------------- *)
-
-Definition confirm_series (se : option series) (r : response) : option series :=
-  match se with
-  | None => if ctl_con (r_ctl r) then Some {| se_ecsn := ctl_seq (r_ctl r); se_fin := true |} else None
-  | x => x
+(* the observations of the step that receives the repeat, by the control state it arrives in *)
+Definition repeat_prefix (c : control) (fn seq : N) (pre : list oobs) : Prop :=
+  match c with
+  | CIdle => pre = [OInfo (IIdleRequest fn seq)]
+  | CUnsolWait _ _ _ _ => pre = []
+  | CSolWait _ _ _ =>
+      exists u i, pre = [OInfo ISolNewRequest; ODb DbReset] ++ u ++ i /\ forallb ustart u = true /\
+                  (i = [] \/ i = [OInfo (IIdleRequest fn seq)])
   end.
 
-Definition finish_fn (cfg : ocfg) (from seq : N) (bytes : list N) (o0 : list oobs)
-           (s1 : ostate) (resp : option response) (se : option series) (repeat : bool) (o1 : list oobs)
-  : ostate * list oobs :=
-  match resp with
-  | Some r =>
-      if repeat then
-        let o2 := repeat_solicited s1 from r in
-        let se' := confirm_series se r in
-        let s2 := upd_last s1 (mk_last seq bytes (Some r) se') in
-        match se' with
-        | Some x => (upd_control s2 (CSolWait x (confirm_deadline cfg s2) RStep2), o0 ++ o1 ++ o2 ++ [OInfo (IEnterSolWait (se_ecsn x))])
-        | None => (s2, o0 ++ o1 ++ o2)
-        end
-      else
-        let '(s2, r', o2) := write_solicited s1 from r in
-        let se' := confirm_series se r' in
-        let s3 := upd_last s2 (mk_last seq bytes (Some r') se') in
-        match se' with
-        | Some x => (upd_control s3 (CSolWait x (confirm_deadline cfg s3) RStep2), o0 ++ o1 ++ o2 ++ [OInfo (IEnterSolWait (se_ecsn x))])
-        | None => (s3, o0 ++ o1 ++ o2)
-        end
-  | None => (upd_last s1 (mk_last seq bytes None se), o0 ++ o1)
-  end.
-
-(* SelectState::update_frame_id on a repeated request *)
-Definition touch_select (s : ostate) (frame_id : N) : ostate :=
-  match s_select s with
-  | Some sel =>
-      if (ss_frame_id sel + 1) mod 4294967296 =? frame_id
-      then upd_select s (Some {| ss_seq := ss_seq sel; ss_frame_id := frame_id;
-                                 ss_time := ss_time sel; ss_objects := ss_objects sel |})
-      else s
-  | None => s
-  end.
-
-Lemma touch_select_frame s fid : frame s (touch_select s fid).
+Lemma repeat_step_inv cfg h s from bytes d ans ctl fn obj resp s' o :
+  inv cfg h s ->
+  to_treq cfg from d = TqRequest ctl fn obj ->
+  classify s None bytes ctl fn obj = FtRepeatNonRead resp ->
+  ostep cfg s (ERx from None bytes d) ans = (s', o) ->
+  exists pre post,
+    o = pre ++ echo_of s from resp ++ post /\ forallb bg post = true /\
+    repeat_prefix (s_control s) fn (ctl_seq ctl) pre.
 Proof.
-  unfold touch_select. destruct (s_select s) as [sel|]; [|apply frame_refl].
-  destruct (_ =? _); [frame_tac | apply frame_refl].
-Qed.
-
-Lemma handle_from_idle_unfold cfg s from bc bytes d frame_id :
-  handle_from_idle cfg s from bc bytes d frame_id =
-  match to_treq cfg from d with
-  | TqNone => (s, [])
-  | TqError seq => write_error_response s from bc seq
-  | TqRequest ctl fn obj =>
-      let seq := ctl_seq ctl in
-      let o0 := [OInfo (IIdleRequest fn seq)] in
-      let finish := finish_fn cfg from seq bytes o0 in
-      match classify s bc bytes ctl fn obj with
-      | FtMalformed iin2 => finish s (Some (empty_solicited seq iin2)) None false []
-      | FtNewRead _ _ | FtRepeatRead _ _ _ =>
-          let '(s1, r, se, o1) := format_first_read_response s seq in finish s1 (Some r) se false o1
-      | FtNewNonRead hdrs =>
-          let '(s1, r, o1) := handle_non_read cfg s fn seq frame_id bytes hdrs in finish s1 r None false o1
-      | FtRepeatNonRead last =>
-          finish (touch_select s frame_id) last None true []
-      | FtBroadcast m =>
-          let '(s1, o1) := process_broadcast cfg s m frame_id ctl fn bytes obj in (s1, o0 ++ o1)
-      | FtSolConfirm _ | FtUnsolConfirm _ => (s, o0)
-      end
-  end.
-Proof. reflexivity. Qed.
-
-Lemma to_treq_from cfg from d ctl fn obj :
-  to_treq cfg from d = TqRequest ctl fn obj -> o_any_master cfg = false -> from = o_master cfg.
-Proof.
-  unfold to_treq. intros H Ha. rewrite Ha in H. cbn [negb andb] in H.
-  destruct (from =? o_master cfg) eqn:E; [apply N.eqb_eq in E; exact E | discriminate].
-Qed.
-
-Lemma to_treq_from_err cfg from d q :
-  to_treq cfg from d = TqError q -> o_any_master cfg = false -> from = o_master cfg.
-Proof.
-  unfold to_treq. intros H Ha. rewrite Ha in H. cbn [negb andb] in H.
-  destruct (from =? o_master cfg) eqn:E; [apply N.eqb_eq in E; exact E | discriminate].
-Qed.
-
-(* what handle_from_idle leaves alone, whatever the fragment *)
-Definition idle_frame (s s1 : ostate) : Prop :=
-  s_deferred s1 = s_deferred s /\ s_pending s1 = s_pending s /\ s_notify s1 = s_notify s /\
-  s_unsol_buf s1 = s_unsol_buf s /\
-  (s_control s1 = s_control s \/ exists se dl, s_control s1 = CSolWait se dl RStep2).
-
-Lemma frameB_idle_frame s s1 : frameB s s1 -> idle_frame s s1.
-Proof. unfold frameB, idle_frame. intuition. Qed.
-
-Lemma finish_fn_spec cfg h from seq bytes o0 s1 resp se repeat o1 s2 o :
-  finish_fn cfg from seq bytes o0 s1 resp se repeat o1 = (s2, o) ->
-  (o_any_master cfg = false -> from = o_master cfg) ->
-  (forall x r, se = Some x -> resp = Some r -> ctl_seq (r_ctl r) = se_ecsn x mod 16) ->
-  s_control s1 = CIdle ->
-  forallb req_obs o0 = true -> forallb req_obs o1 = true ->
-  sol_coh cfg (h ++ o) s2 /\ wait_coh s2 /\ idle_frame s1 s2 /\ forallb req_obs o = true.
-Proof.
-  unfold finish_fn. intros H Hfrom Hse Hc S0 S1.
-  destruct resp as [r|].
-  2:{ inv_pair H. split; [|split; [|split]].
-      - intros l r Hl Hr. psimpl_in Hl. inversion Hl; subst l. discriminate.
-      - intros x dl rs Hx. psimpl_in Hx. congruence.
-      - unfold idle_frame; psimpl; auto 10.
-      - fb. }
-  assert (Hws : forall x r', confirm_series se r' = Some x -> ctl_seq (r_ctl r') = ctl_seq (r_ctl r) ->
-                ctl_seq (r_ctl r') = se_ecsn x mod 16).
-  { intros x r' Hx Hq. unfold confirm_series in Hx. destruct se as [y|].
-    - inversion Hx; subst y. rewrite Hq. eauto.
-    - destruct (ctl_con (r_ctl r')); inversion Hx; subst x. cbn [se_ecsn]. unfold ctl_seq. lia. }
-  destruct repeat.
-  - cbv zeta in H. unfold repeat_solicited in H.
-    assert (Hk : forall s3 o4, s_last s3 = mk_last seq bytes (Some r) (confirm_series se r) ->
-                 s_sol_buf s3 = s_sol_buf s1 ->
-                 sol_coh cfg (h ++ o0 ++ o1 ++ [OTx from (response_bytes r (s_sol_buf s1))] ++ o4) s3).
-    { intros s3 o4 Hl Hb l r0 Hl0 Hr0. rewrite Hl in Hl0. inversion Hl0; subst l. cbn [lr_response] in Hr0.
-      inversion Hr0; subst r0. rewrite Hb. exists from. split; [|exact Hfrom].
-      rewrite ?in_app_iff. cbn [In]. tauto. }
-    destruct (confirm_series se r) as [x|] eqn:Ecs; inv_pair H.
-    + split; [|split; [|split]].
-      * apply (Hk _ [OInfo (IEnterSolWait (se_ecsn x))]); psimpl; auto.
-      * intros se0 dl rs Hx. psimpl_in Hx. inversion Hx; subst. psimpl.
-        eexists _, r. split; [reflexivity|]. split; [reflexivity|]. apply Hws; auto.
-      * unfold idle_frame; psimpl. repeat split; eauto.
-      * fb.
-    + split; [|split; [|split]].
-      * specialize (Hk (upd_last s1 (mk_last seq bytes (Some r) None)) []). rewrite app_nil_r in Hk.
-        apply Hk; psimpl; auto.
-      * intros se0 dl rs Hx. psimpl_in Hx. congruence.
-      * unfold idle_frame; psimpl. repeat split; eauto.
-      * fb.
-  - destruct (write_solicited s1 from r) as [[s3 r'] o2] eqn:Ew.
-    apply write_solicited_spec in Ew as [F [_ [_ [Hq [o' [-> S']]]]]].
-    cbv zeta in H.
-    assert (Hk : forall s4 o4, s_last s4 = mk_last seq bytes (Some r') (confirm_series se r') ->
-                 s_sol_buf s4 = s_sol_buf s3 ->
-                 sol_coh cfg (h ++ o0 ++ o1 ++ (o' ++ [OTx from (response_bytes r' (s_sol_buf s3))]) ++ o4) s4).
-    { intros s4 o4 Hl Hb l r0 Hl0 Hr0. rewrite Hl in Hl0. inversion Hl0; subst l. cbn [lr_response] in Hr0.
-      inversion Hr0; subst r0. rewrite Hb. exists from. split; [|exact Hfrom].
-      rewrite ?in_app_iff. cbn [In]. tauto. }
-    assert (Sreq : forallb req_obs o' = true) by (apply (forallb_imp _ _ _ dbq_req S')).
-    destruct F as [[Fc [Fl [Fd [Fp [Fn Fu]]]]] Fb].
-    destruct (confirm_series se r') as [x|] eqn:Ecs; inv_pair H.
-    + split; [|split; [|split]].
-      * apply Hk; psimpl; auto.
-      * intros se0 dl rs Hx. psimpl_in Hx. inversion Hx; subst. psimpl.
-        eexists _, r'. split; [reflexivity|]. split; [reflexivity|]. apply Hws; auto.
-      * unfold idle_frame; psimpl. repeat split; eauto.
-      * fb.
-    + split; [|split; [|split]].
-      * specialize (Hk (upd_last s3 (mk_last seq bytes (Some r') None)) []). rewrite app_nil_r in Hk.
-        apply Hk; psimpl; auto.
-      * intros se0 dl rs Hx. psimpl_in Hx. congruence.
-      * unfold idle_frame; psimpl. repeat split; auto.
-      * fb.
-Qed.
-
-Lemma wait_coh_not_wait s : (forall se dl rs, s_control s <> CSolWait se dl rs) -> wait_coh s.
-Proof. intros H se dl rs Hc. destruct (H _ _ _ Hc). Qed.
-
-Lemma idle_frame_trans_l s s1 s2 : frameB s s1 -> idle_frame s1 s2 -> idle_frame s s2.
-Proof. unfold frameB, idle_frame. intros [A [B [C [D [E F]]]]] [G [I [J [K L]]]]. rewrite <- A. intuition congruence. Qed.
-
-Lemma handle_from_idle_pres cfg h s from bc bytes d fid s1 o :
-  handle_from_idle cfg s from bc bytes d fid = (s1, o) ->
-  s_control s = CIdle ->
-  sol_coh cfg h s ->
-  sol_coh cfg (h ++ o) s1 /\ wait_coh s1 /\ idle_frame s s1 /\ forallb req_obs o = true.
-Proof.
-  rewrite handle_from_idle_unfold. intros H Hc Hcoh.
-  assert (Hsame : forall s', frame s s' -> forall o', forallb req_obs o' = true ->
-            sol_coh cfg (h ++ o') s' /\ wait_coh s' /\ idle_frame s s' /\ forallb req_obs o' = true).
-  { intros s' F o' So. pose proof F as [[Fc [Fl _]] Fb]. split; [|split; [|split]].
-    - apply sol_coh_frame with (s := s); auto.
-    - apply wait_coh_not_wait. intros se dl rs. rewrite Fc, Hc. discriminate.
-    - apply frameB_idle_frame, frame_frameB, F.
-    - exact So. }
-  destruct (to_treq cfg from d) as [|q|ctl fn obj] eqn:Et.
-  - inv_pair H. apply Hsame; [apply frame_refl | reflexivity].
-  - apply write_error_response_spec in H as [F [S _]]. apply Hsame; assumption.
-  - pose proof (to_treq_from _ _ _ _ _ _ Et) as Hfrom. cbv zeta in H.
-    assert (S0 : forallb req_obs [OInfo (IIdleRequest fn (ctl_seq ctl))] = true) by reflexivity.
-    destruct (classify s bc bytes ctl fn obj) as [iin2|hdrs rh|resp hdrs rh|hdrs|resp|m|q|q] eqn:Ecl.
-    + eapply finish_fn_spec in H; eauto. discriminate.
-    + destruct (format_first_read_response s (ctl_seq ctl)) as [[[s2 r] se] o1] eqn:Ef.
-      apply format_first_read_response_spec in Ef as [F [S [Q1 Q2]]].
-      eapply finish_fn_spec with (h := h) in H; eauto.
-      * destruct H as [A [B [C D]]]. split; [exact A|]. split; [exact B|]. split; [|exact D]. eapply idle_frame_trans_l; eauto.
-      * intros x r0 Hx Hr. inversion Hr; subst r0. rewrite (Q2 _ Hx). exact Q1.
-      * destruct F as [Fc _]. congruence.
-      * apply (forallb_imp _ _ _ dbq_req S).
-    + destruct (format_first_read_response s (ctl_seq ctl)) as [[[s2 r] se] o1] eqn:Ef.
-      apply format_first_read_response_spec in Ef as [F [S [Q1 Q2]]].
-      eapply finish_fn_spec with (h := h) in H; eauto.
-      * destruct H as [A [B [C D]]]. split; [exact A|]. split; [exact B|]. split; [|exact D]. eapply idle_frame_trans_l; eauto.
-      * intros x r0 Hx Hr. inversion Hr; subst r0. rewrite (Q2 _ Hx). exact Q1.
-      * destruct F as [Fc _]. congruence.
-      * apply (forallb_imp _ _ _ dbq_req S).
-    + destruct (handle_non_read cfg s fn (ctl_seq ctl) fid bytes hdrs) as [[s2 r] o1] eqn:Ef.
-      apply handle_non_read_spec in Ef as [F S].
-      eapply finish_fn_spec with (h := h) in H; eauto.
-      * destruct H as [A [B [C D]]]. split; [exact A|]. split; [exact B|]. split; [|exact D]. eapply idle_frame_trans_l; eauto.
-      * discriminate.
-      * destruct F as [Fc _]. congruence.
-      * apply (forallb_imp _ _ _ exec_req S).
-    + pose proof (touch_select_frame s fid) as F.
-      eapply finish_fn_spec with (h := h) in H; eauto.
-      * destruct H as [A [B [C D]]]. split; [exact A|]. split; [exact B|]. split; [|exact D]. eapply idle_frame_trans_l; eauto. apply frame_frameB, F.
-      * discriminate.
-      * destruct F as [[Fc _] _]. congruence.
-    + destruct (process_broadcast cfg s m fid ctl fn bytes obj) as [s2 o1] eqn:Ef.
-      apply process_broadcast_spec in Ef as [F S]. inv_pair H. apply Hsame; [exact F|]. fb.
-    + inv_pair H. apply Hsame; [apply frame_refl | reflexivity].
-    + inv_pair H. apply Hsame; [apply frame_refl | reflexivity].
-Qed.
-
-(* ---------- one fragment in the unsolicited confirm wait ----------------------------------------------------------- *)
-
-Definition wait_frame (s s1 : ostate) : Prop :=
-  s_control s1 = s_control s /\ s_pending s1 = s_pending s /\ s_notify s1 = s_notify s /\
-  s_unsol_buf s1 = s_unsol_buf s.
-
-Lemma unsol_wait_fragment_pres cfg h s resp from bc bytes d fid s1 res o :
-  unsol_wait_fragment cfg s resp from bc bytes d fid = (s1, res, o) ->
-  sol_coh cfg h s ->
-  sol_coh cfg (h ++ o) s1 /\ wait_frame s s1 /\ forallb req_obs o = true /\
-  (res <> None -> s_deferred s1 = s_deferred s \/ s_deferred s1 = None).
-Proof.
-  unfold unsol_wait_fragment. intros H Hcoh.
-  assert (Hsame : forall s' o', s_last s' = s_last s -> s_sol_buf s' = s_sol_buf s -> wait_frame s s' ->
-            forallb req_obs o' = true ->
-            (res <> None -> s_deferred s' = s_deferred s \/ s_deferred s' = None) ->
-            sol_coh cfg (h ++ o') s' /\ wait_frame s s' /\ forallb req_obs o' = true /\
-            (res <> None -> s_deferred s' = s_deferred s \/ s_deferred s' = None)).
-  { intros s' o' Fl Fb Fw So Hd. split; [|auto]. apply sol_coh_frame with (s := s); auto. }
-  destruct (to_treq cfg from d) as [|q|ctl fn obj] eqn:Et.
-  - inv_pair H. apply Hsame; auto; try reflexivity. unfold wait_frame; auto.
-  - destruct (write_error_response (upd_deferred s None) from bc q) as [s2 o2] eqn:Ew.
-    apply write_error_response_spec in Ew as [[[Fc [Fl [Fd [Fp [Fn Fu]]]]] Fb] [S _]]. inv_pair H.
-    psimpl_in Fc. psimpl_in Fl. psimpl_in Fp. psimpl_in Fn. psimpl_in Fu. psimpl_in Fb.
-    apply Hsame; auto. unfold wait_frame; auto.
-  - pose proof (to_treq_from _ _ _ _ _ _ Et) as Hfrom.
-    destruct (classify s bc bytes ctl fn obj) as [iin2|hdrs rh|resp0 hdrs rh|hdrs|resp0|m|q|q] eqn:Ecl.
-    + destruct (write_solicited (upd_deferred s None) from (empty_solicited (ctl_seq ctl) iin2)) as [[s2 r2] o2] eqn:Ew.
-      apply write_solicited_spec in Ew as [[[Fc [Fl [Fd [Fp [Fn Fu]]]]] Fb] [_ [_ [_ [o' [-> S]]]]]]. inv_pair H.
-      psimpl_in Fc. psimpl_in Fl. psimpl_in Fp. psimpl_in Fn. psimpl_in Fu. psimpl_in Fb.
-      apply Hsame; auto. { unfold wait_frame; auto. }
-      rewrite forallb_app, (forallb_imp _ _ _ dbq_req S). reflexivity.
-    + inv_pair H. apply Hsame; auto; try reflexivity; [|intros X; congruence]. unfold wait_frame; psimpl; auto.
-    + inv_pair H. apply Hsame; auto; try reflexivity; [|intros X; congruence]. unfold wait_frame; psimpl; auto.
-    + destruct (handle_non_read cfg (upd_deferred s None) fn (ctl_seq ctl) fid bytes hdrs) as [[s2 r] o1] eqn:Eh.
-      apply handle_non_read_spec in Eh as [[Fc [Fl [Fd [Fp [Fn Fu]]]]] S1].
-      psimpl_in Fc. psimpl_in Fl. psimpl_in Fp. psimpl_in Fn. psimpl_in Fu. psimpl_in Fd.
-      apply (forallb_imp _ _ _ exec_req) in S1.
-      destruct r as [r0|].
-      * destruct (write_solicited s2 from r0) as [[s3 r1] o2] eqn:Ew.
-        apply write_solicited_spec in Ew as [[[Gc [Gl [Gd [Gp [Gn Gu]]]]] Gb] [_ [_ [_ [o' [-> S]]]]]]. inv_pair H.
-        apply (forallb_imp _ _ _ dbq_req) in S.
-        split; [|split; [|split]].
-        -- intros l r Hl Hr. psimpl_in Hl. inversion Hl; subst l. cbn [lr_response] in Hr. inversion Hr; subst r.
-           psimpl. exists from. split; [|exact Hfrom]. rewrite ?in_app_iff. cbn [In]. tauto.
-        -- unfold wait_frame; psimpl. repeat split; congruence.
-        -- fb.
-        -- intros _. right. psimpl. congruence.
-      * inv_pair H. split; [|split; [|split]].
-        -- intros l r Hl Hr. psimpl_in Hl. inversion Hl; subst l. discriminate.
-        -- unfold wait_frame; psimpl. repeat split; congruence.
-        -- fb.
-        -- intros _. right. psimpl. congruence.
-    + inv_pair H. apply Hsame; auto; try reflexivity. { unfold wait_frame; psimpl; auto. }
-      destruct resp0; reflexivity.
-    + destruct (process_broadcast cfg (upd_deferred s None) m fid ctl fn bytes obj) as [s2 o2] eqn:Ep.
-      apply process_broadcast_spec in Ep as [[[Fc [Fl [Fd [Fp [Fn Fu]]]]] Fb] S]. inv_pair H.
-      psimpl_in Fc. psimpl_in Fl. psimpl_in Fp. psimpl_in Fn. psimpl_in Fu. psimpl_in Fb.
-      apply Hsame; auto. unfold wait_frame; auto.
-    + destruct (s_last_bcast s) as [[]|]; inv_pair H; apply Hsame; auto; try reflexivity;
-        try (intros X; congruence); try (unfold wait_frame; psimpl; auto).
-    + destruct (q =? ctl_seq (r_ctl resp)); inv_pair H; apply Hsame; auto; try reflexivity;
-        try (intros X; congruence); try (unfold wait_frame; psimpl; auto).
-Qed.
-
-Lemma unsol_wait_fragment_def_ok cfg s resp from bc bytes d fid s1 res o :
-  unsol_wait_fragment cfg s resp from bc bytes d fid = (s1, res, o) ->
-  def_ok cfg s -> def_ok cfg s1.
-Proof.
-  unfold unsol_wait_fragment. intros H Hd.
-  assert (Hnone : forall s', s_deferred s' = None -> def_ok cfg s').
-  { intros s' E x Hx. congruence. }
-  assert (Hsame : forall s', s_deferred s' = s_deferred s -> def_ok cfg s').
-  { intros s' E x Hx. rewrite E in Hx. auto. }
-  destruct (to_treq cfg from d) as [|q|ctl fn obj] eqn:Et.
-  - inv_pair H. exact Hd.
-  - destruct (write_error_response (upd_deferred s None) from bc q) as [s2 o2] eqn:Ew.
-    apply write_error_response_spec in Ew as [[[Fc [Fl [Fd _]]] Fb] _]. inv_pair H. apply Hnone. exact Fd.
-  - pose proof (to_treq_from _ _ _ _ _ _ Et) as Hfrom.
-    destruct (classify s bc bytes ctl fn obj) as [iin2|hdrs rh|resp0 hdrs rh|hdrs|resp0|m|q|q] eqn:Ecl.
-    + destruct (write_solicited (upd_deferred s None) from (empty_solicited (ctl_seq ctl) iin2)) as [[s2 r2] o2] eqn:Ew.
-      apply write_solicited_spec in Ew as [[[Fc [Fl [Fd _]]] Fb] _]. inv_pair H. apply Hnone. exact Fd.
-    + inv_pair H. intros x Hx. psimpl_in Hx. inversion Hx; subst x. exact Hfrom.
-    + inv_pair H. intros x Hx. psimpl_in Hx. inversion Hx; subst x. exact Hfrom.
-    + destruct (handle_non_read cfg (upd_deferred s None) fn (ctl_seq ctl) fid bytes hdrs) as [[s2 r] o1] eqn:Eh.
-      apply handle_non_read_spec in Eh as [[Fc [Fl [Fd _]]] S1]. psimpl_in Fd.
-      destruct r as [r0|].
-      * destruct (write_solicited s2 from r0) as [[s3 r1] o2] eqn:Ew.
-        apply write_solicited_spec in Ew as [[[Gc [Gl [Gd _]]] Gb] _]. inv_pair H.
-        apply Hnone. psimpl. congruence.
-      * inv_pair H. apply Hnone. psimpl. congruence.
-    + inv_pair H. apply Hnone. reflexivity.
-    + destruct (process_broadcast cfg (upd_deferred s None) m fid ctl fn bytes obj) as [s2 o2] eqn:Ep.
-      apply process_broadcast_spec in Ep as [[[Fc [Fl [Fd _]]] Fb] S]. inv_pair H. apply Hnone. exact Fd.
-    + destruct (s_last_bcast s) as [[]|]; inv_pair H; apply Hsame; reflexivity.
-    + destruct (q =? ctl_seq (r_ctl resp)); inv_pair H; apply Hsame; reflexivity.
-Qed.
-
-(* ---------- unsolicited: starting and ending a series ------------------------------------------------------------------ *)
-
-Lemma start_unsol_spec cfg h s r is_null s1 o :
-  start_unsol cfg s r is_null = (s1, o) ->
-  frame (upd_control s (s_control s1)) s1 /\ forallb ustart o = true /\
-  exists r1 rt dl, s_control s1 = CUnsolWait r1 is_null rt dl /\ r_fn r1 = r_fn r /\
-    opened_by (h ++ o) (o_master cfg) (response_bytes r1 (s_unsol_buf s1)) (ctl_seq (r_ctl r1)).
-Proof.
-  unfold start_unsol. destruct (write_unsolicited cfg s r) as [[s0 r1] o0] eqn:Ew.
-  apply write_unsolicited_spec in Ew as [F [_ [Hfn [_ [o' [-> S]]]]]]. intros H; inv_pair H.
-  split; [frame_tac|]. split.
-  - rewrite !forallb_app, (forallb_imp _ _ _ dbq_ustart S). reflexivity.
-  - eexists r1, _, _. psimpl. split; [reflexivity|]. split; [exact Hfn|].
-    exists (h ++ o'), []. split; [|reflexivity]. rewrite <- !app_assoc. reflexivity.
-Qed.
-
-Lemma check_unsolicited_spec cfg h s s1 ns o :
-  check_unsolicited cfg s = (s1, ns, o) ->
-  s_control s = CIdle ->
-  s_last s1 = s_last s /\ s_sol_buf s1 = s_sol_buf s /\ s_deferred s1 = s_deferred s /\
-  s_pending s1 = s_pending s /\ s_notify s1 = s_notify s /\
-  forallb ustart o = true /\ unsol_coh cfg (h ++ o) s1 /\
-  (s_control s1 = CIdle \/ exists r1 n rt dl, s_control s1 = CUnsolWait r1 n rt dl).
-Proof.
-  unfold check_unsolicited. intros H Hc.
-  assert (Hsame : forall s', frame s s' ->
-     s_last s' = s_last s /\ s_sol_buf s' = s_sol_buf s /\ s_deferred s' = s_deferred s /\
-     s_pending s' = s_pending s /\ s_notify s' = s_notify s /\
-     forallb ustart [] = true /\ unsol_coh cfg (h ++ []) s' /\
-     (s_control s' = CIdle \/ exists r1 n rt dl, s_control s' = CUnsolWait r1 n rt dl)).
-  { intros s' [[Fc [Fl [Fd [Fp [Fn Fu]]]]] Fb]. splits; auto.
-    - apply unsol_coh_vacuous. intros resp n rt dl X. rewrite Fc, Hc in X. discriminate.
-    - left. congruence. }
-  assert (Hstart : forall s0 r is_null pre s1' o', start_unsol cfg s0 r is_null = (s1', o') ->
-     frame s (upd_unsol_buf s0 (s_unsol_buf s)) -> r_fn r = fn_unsol_response -> forallb ustart pre = true ->
-     s_last s1' = s_last s /\ s_sol_buf s1' = s_sol_buf s /\ s_deferred s1' = s_deferred s /\
-     s_pending s1' = s_pending s /\ s_notify s1' = s_notify s /\
-     forallb ustart (pre ++ o') = true /\ unsol_coh cfg (h ++ pre ++ o') s1' /\
-     (s_control s1' = CIdle \/ exists r1 n rt dl, s_control s1' = CUnsolWait r1 n rt dl)).
-  { intros s0 r is_null pre s1' o' Hs F Hfn Sp.
-    apply start_unsol_spec with (h := h ++ pre) in Hs as [[[Gc [Gl [Gd [Gp [Gn Gu]]]]] Gb] [S [r1 [rt [dl [Hc1 [Hfn1 Hop]]]]]]].
-    destruct F as [[Fc [Fl [Fd [Fp [Fn Fu]]]]] Fb].
-    psimpl_in Gl. psimpl_in Gd. psimpl_in Gp. psimpl_in Gn. psimpl_in Gb.
-    psimpl_in Fl. psimpl_in Fd. psimpl_in Fp. psimpl_in Fn. psimpl_in Fb.
-    splits; try congruence.
-    - rewrite forallb_app, Sp, S. reflexivity.
-    - intros resp n rt' dl' Hc'. rewrite Hc1 in Hc'. inversion Hc'; subst. split; [|congruence].
-      rewrite app_assoc. exact Hop.
-    - right. eauto. }
-  destruct (negb (o_unsol cfg)); [inv_pair H; apply Hsame, frame_refl|].
-  destruct (s_unsol s) as [|deadline].
-  - destruct (start_unsol cfg (upd_unsol_seq s (seq16_next (s_unsol_seq s))) (unsol_header (s_unsol_seq s) 0) true)
-      as [s2 o2] eqn:Es. inv_pair H.
-    apply (Hstart _ _ _ []) in Es; auto. frame_tac.
-  - destruct (negb match deadline with Some t => (t <=? s_now s)%Z | None => true end);
-      [inv_pair H; apply Hsame, frame_refl|].
-    destruct (negb (any_enabled s)); [inv_pair H; apply Hsame, frame_refl|].
-    destruct (ask_unsol s) as [s0 [count body]] eqn:Ea. apply ask_unsol_spec in Ea.
-    destruct (s_enabled s) as [[c1 c2] c3].
-    destruct (count =? 0); [inv_pair H; apply Hsame; exact Ea|].
-    match type of H with context [start_unsol cfg ?a ?b ?c] => destruct (start_unsol cfg a b c) as [s3 o3] eqn:Es end.
-    inv_pair H.
-    apply (Hstart _ _ _ [ODb (DbWriteUnsol c1 c2 c3)]) in Es; auto.
-    destruct Ea as [[Fc [Fl [Fd [Fp [Fn Fu]]]]] Fb]. frame_tac.
-Qed.
-
-Lemma end_unsol_spec cfg s is_null res s1 ns o :
-  end_unsol cfg s is_null res = (s1, ns, o) ->
-  frame (upd_control s CIdle) s1 /\ forallb dbq o = true.
-Proof.
-  unfold end_unsol. destruct is_null, res; intros H; inv_pair H; (split; [frame_tac | reflexivity]).
-Qed.
-
-(* ---------- handle_deferred_read -------------------------------------------------------------------------------------- *)
-
-Lemma handle_deferred_none cfg s ns : s_deferred s = None -> handle_deferred cfg s ns = (s, []).
-Proof. unfold handle_deferred. intros ->. reflexivity. Qed.
-
-Lemma handle_deferred_pres cfg h s ns s1 o :
-  handle_deferred cfg s ns = (s1, o) ->
-  s_control s = CIdle -> def_ok cfg s ->
-  sol_coh cfg h s ->
-  sol_coh cfg (h ++ o) s1 /\ wait_coh s1 /\
-  s_deferred s1 = None /\ s_pending s1 = s_pending s /\ s_unsol_buf s1 = s_unsol_buf s /\
-  (s_control s1 = CIdle \/ exists se dl, s_control s1 = CSolWait se dl (RStep4 ns)) /\
-  forallb bg o = true.
-Proof.
-  unfold handle_deferred. intros H Hc Hdef Hcoh.
-  destruct (s_deferred s) as [d|] eqn:Ed.
-  2:{ inv_pair H. splits; auto.
-      - apply sol_coh_frame with (s := s1); auto.
-      - apply wait_coh_not_wait. intros se dl rs. rewrite Hc. discriminate. }
-  destruct (ask_iin2 (upd_notify (upd_deferred s None) true) DbDeferredSelect) as [[s2 iin2] o1] eqn:E1.
-  destruct (format_read_response s2 true (df_seq d) (N.lor (df_iin2 d) iin2)) as [[[s3 r] se] o2] eqn:E2.
-  destruct (write_solicited s3 (df_from d) r) as [[s4 r'] o3] eqn:E3.
-  apply ask_iin2_spec in E1 as [[[Ac [Al [Ad [Ap [An Au]]]]] Ab] S1].
-  apply format_read_response_spec in E2 as [[Bc [Bl [Bd [Bp [Bn Bu]]]]] [S2 [Q1 Q2]]].
-  apply write_solicited_spec in E3 as [[[Cc [Cl [Cd [Cp [Cn Cu]]]]] Cb] [_ [_ [Hq [o' [-> S3]]]]]].
-  psimpl_in Ac. psimpl_in Al. psimpl_in Ad. psimpl_in Ap. psimpl_in Au.
-  cbv zeta in H.
-  assert (Hk : forall s5 o4, s_last s5 = mk_last (df_seq d) (df_bytes d) (Some r') se ->
-               s_sol_buf s5 = s_sol_buf s4 ->
-               sol_coh cfg (h ++ o1 ++ o2 ++ (o' ++ [OTx (df_from d) (response_bytes r' (s_sol_buf s4))]) ++ o4) s5).
-  { intros s5 o4 Hl Hb l r0 Hl0 Hr0. rewrite Hl in Hl0. inversion Hl0; subst l. cbn [lr_response] in Hr0.
-    inversion Hr0; subst r0. rewrite Hb. exists (df_from d). split; [|apply Hdef; exact Ed].
-    rewrite ?in_app_iff. cbn [In]. tauto. }
-  assert (Hws : forall x, match se with
-                          | None => if ctl_con (r_ctl r') then Some {| se_ecsn := ctl_seq (r_ctl r'); se_fin := true |} else None
-                          | x => x end = Some x -> ctl_seq (r_ctl r') = se_ecsn x mod 16).
-  { intros x Hx. destruct se as [y|].
-    - inversion Hx; subst y. rewrite Hq, (Q2 _ eq_refl). exact Q1.
-    - destruct (ctl_con (r_ctl r')); inversion Hx; subst x. cbn [se_ecsn]. unfold ctl_seq. lia. }
-  assert (Sbg : forallb bg (o1 ++ o2 ++ o' ++ [OTx (df_from d) (response_bytes r' (s_sol_buf s4))]) = true).
-  { rewrite !forallb_app, (forallb_imp _ _ _ dbq_bg S1), (forallb_imp _ _ _ dbq_bg S2), (forallb_imp _ _ _ dbq_bg S3). reflexivity. }
-  match type of H with (match ?c with _ => _ end) = _ => destruct c as [x|] eqn:Ese end; inv_pair H.
-  - splits.
-    + apply Hk; psimpl; auto.
-    + intros se0 dl rs Hx. psimpl_in Hx. inversion Hx; subst. psimpl.
-      eexists _, r'. split; [reflexivity|]. split; [reflexivity|]. apply Hws. reflexivity.
-    + psimpl. congruence.
-    + psimpl. congruence.
-    + psimpl. congruence.
-    + right. psimpl. eauto.
-    + rewrite !app_assoc, forallb_app. rewrite <- !app_assoc, Sbg. reflexivity.
-  - splits.
-    + specialize (Hk (upd_last s4 (mk_last (df_seq d) (df_bytes d) (Some r') se)) []). rewrite app_nil_r in Hk.
-      apply Hk; psimpl; auto.
-    + apply wait_coh_not_wait. intros se0 dl rs. psimpl. rewrite Cc, Bc, Ac, Hc. discriminate.
-    + psimpl. congruence.
-    + psimpl. congruence.
-    + psimpl. congruence.
-    + left. psimpl. congruence.
-    + exact Sbg.
-Qed.
-
-(* what handle_deferred does to the wake-up permit: set when there was a deferred READ *)
-Lemma handle_deferred_notify cfg s ns s1 o :
-  handle_deferred cfg s ns = (s1, o) ->
-  match s_deferred s with None => s_notify s1 = s_notify s | Some _ => s_notify s1 = true end.
-Proof.
-  unfold handle_deferred. intros H.
-  destruct (s_deferred s) as [d|] eqn:Ed; [|inv_pair H; reflexivity].
-  destruct (ask_iin2 (upd_notify (upd_deferred s None) true) DbDeferredSelect) as [[s2 iin2] o1] eqn:E1.
-  destruct (format_read_response s2 true (df_seq d) (N.lor (df_iin2 d) iin2)) as [[[s3 r] se] o2] eqn:E2.
-  destruct (write_solicited s3 (df_from d) r) as [[s4 r'] o3] eqn:E3.
-  apply ask_iin2_spec in E1 as [[[Ac [Al [Ad [Ap [An Au]]]]] Ab] S1].
-  apply format_read_response_spec in E2 as [[Bc [Bl [Bd [Bp [Bn Bu]]]]] [S2 [Q1 Q2]]].
-  apply write_solicited_spec in E3 as [[[Cc [Cl [Cd [Cp [Cn Cu]]]]] Cb] _].
-  psimpl_in An. cbv zeta in H.
-  match type of H with (match ?c with _ => _ end) = _ => destruct c as [x|] end; inv_pair H; psimpl; congruence.
+  intros Hinv Et Ecl H. unfold ostep in H.
+  assert (Hinv0 : inv cfg h (upd_answers s ans)) by (apply inv_same with (s := s); [frame_tac | exact Hinv]).
+  destruct (on_rx cfg (upd_answers s ans) from None bytes d) as [s1 o1] eqn:E1.
+  destruct (advance 64 cfg s1 (s_now s1 + settle_ms)) as [s2 o2] eqn:E2. inv_pair H.
+  pose proof (on_rx_pres _ _ _ _ _ _ _ _ _ E1 Hinv0) as [_ [Hp1 _]].
+  apply advance_bg in E2 as [_ S2]; auto.
+  unfold on_rx in E1. cbv zeta in E1.
+  set (fid := (s_frame_id (upd_answers s ans) + 1) mod 4294967296) in *.
+  set (sA := upd_frame_id (upd_answers s ans) fid) in *.
+  assert (HlA : s_last sA = s_last s) by reflexivity.
+  assert (HbA : s_sol_buf sA = s_sol_buf s) by reflexivity.
+  assert (HcA : s_control sA = s_control s) by reflexivity.
+  assert (HdA : s_deferred sA = s_deferred s) by reflexivity.
+  clearbody sA. rewrite HcA in E1.
+  destruct (s_control s) as [|se dl r|resp0 is_null retries dl] eqn:Ec; cbn [repeat_prefix].
+  - rewrite idle_loop_8_eq in E1. unfold resume_at in E1. change 32%nat with (S 31) in E1.
+    eapply idle_run_repeat_St1 with (ctl := ctl) (fn := fn) (obj := obj) (resp := resp) in E1
+      as [_ [post [-> B]]]; [| reflexivity | exact Et | rewrite <- Ecl; apply classify_last; exact HlA].
+    rewrite (echo_of_buf s) by exact HbA.
+    exists [OInfo (IIdleRequest fn (ctl_seq ctl))], (post ++ o2).
+    split; [rewrite <- !app_assoc; reflexivity|]. split; [fb | reflexivity].
+  - rewrite (sol_wait_fragment_repeat cfg sA se dl from bytes d ctl fn obj resp) in E1;
+      [| exact Et | rewrite <- Ecl; apply classify_last; exact HlA].
+    match type of E1 with context [resume_at cfg ?st ?sx] => destruct (resume_at cfg st sx) as [s3 o3] eqn:E3 end.
+    inv_pair E1. unfold resume_at in E3. change 32%nat with (S (S (S (S (S 27))))) in E3.
+    eapply idle_run_repeat with (ctl := ctl) (fn := fn) (obj := obj) (resp := resp) in E3
+      as [_ [u [i [post [-> [Su [Hi B]]]]]]];
+      [| destruct r; cbn [stage_of]; eauto | reflexivity | reflexivity | | exact Et
+       | rewrite <- Ecl; apply classify_last; exact HlA].
+    + rewrite (echo_of_buf s) by exact HbA.
+      exists ([OInfo ISolNewRequest; ODb DbReset] ++ u ++ i), (post ++ o2).
+      split; [cbn [app]; rewrite <- !app_assoc; reflexivity|]. split; [fb|].
+      exists u, i. auto.
+    + psimpl. rewrite HdA. destruct Hinv as [_ Hr]. apply rest_ok_deferred_none; [exact Hr|].
+      intros ? ? ? ? X. rewrite Ec in X. discriminate.
+  - rewrite (unsol_wait_fragment_repeat cfg sA resp0 from bytes d fid ctl fn obj resp) in E1;
+      [| exact Et | rewrite <- Ecl; apply classify_last; exact HlA].
+    inv_pair E1. rewrite (echo_of_buf s) by exact HbA.
+    exists [], o2. auto.
 Qed.
